@@ -397,6 +397,25 @@ def add_cons_vars_to_problem(
        Keyword arguments passed to solver's add() method.
 
     """
+    # The solver interface applies additions at its next update: a name that is
+    # already taken (or given twice) would fail only then, with part of the list
+    # added and a queue of pending additions that can never be processed again.
+    # Refuse the whole call instead.
+    model.solver.update()
+    seen = set()
+    for item in what if isinstance(what, (list, tuple)) else [what]:
+        is_variable = isinstance(item, optlang.interface.Variable)
+        container = model.solver.variables if is_variable else model.solver.constraints
+        name = getattr(item, "name", None)
+        if name is None:
+            continue
+        if name in container or (is_variable, name) in seen:
+            raise ValueError(
+                f"The solver already has a {'variable' if is_variable else 'constraint'}"
+                f" named '{name}': nothing was added."
+            )
+        seen.add((is_variable, name))
+
     model.solver.add(what, **kwargs)
 
     context = get_context(model)
